@@ -105,22 +105,25 @@ CLAIMED["C11"] = dict(
 # ---- session 3: models regenerated from the source on every run + kernel-checked refinement, and the symbolic pipeline model
 REGEN = " Regenerated tie (DESIGN.md 11.3c): %s is re-translated from /repo's Python AST into Lean on every run (harness/translate/py2lean.py + specs.py) and %s prove(s), for all inputs, that the regenerated definition is the hand model the theorems above are about; an edit the translator cannot follow, or a definition the refinement no longer proves for, breaks the tie and starts the failing-input search."
 ADD_TEXT = {
-    "C01": REGEN % ("the assembly loop of generate_propagator_solver (guards, defined propagator symbols, terms of every update expression)", "propagatorSolver_error_iff / propagatorSolver_ok / propagatorSolver_ok_of_model"),
-    "C02": " End-to-end symbolic pipeline model (DESIGN.md 11.3d, no contract on expand()): splitRow_lossless, splitRow_A_const, splitRow_b_const, unitRow_den, rows_lossless, numericRhs_lossless, analyse_numeric_rhs - every right-hand side the model hands to the numeric solver denotes (as a Laurent polynomial) the right-hand side the user wrote; tied by the `pipeline` correspondence (order of x, verdict stages, values of A, b, c, sub-systems, numeric update expressions).",
-    "C03": REGEN % ("get_dependency_edges, propagate_lin_cc_judgements and the two demotion rules of _find_analytically_solvable_equations", "dependencyEdges_spec / propagate_refines / verdict_refines / demote_refines / demote_eligible / findAnalytic_refines / findAnalytic_total") + " Pipeline model: analyse_verdict_some, analyse_partition, analyse_analytic_closed, analyse_analytic_linear.",
-    "C04": REGEN % ("the demotion rules and the worklist", "demote_eligible / findAnalytic_refines / propagate_refines / verdict_refines") + " Pipeline model: collect_sound and analyse_spelling_invariant - two systems whose right-hand sides denote the same Laurent polynomials get the same x, verdict stages and partition, with expand() itself modelled (Poly.expandRaw + collect).",
+    "C01": REGEN % ("the assembly loop of generate_propagator_solver (guards, defined propagator symbols, terms of every update expression), the scatter loop of _generate_propagator_matrix and get_sub_system", "propagatorSolver_error_iff / propagatorSolver_ok / propagatorSolver_ok_of_model, scatterBlocks_inside / scatterBlocks_outside / scatterBlocks_eq_scatter (the scattered matrix of blocks_sound), subSystem_idx / subSystem_A_b / subSystem_c"),
+    "C02": REGEN % ("the term loop of split_lin_inhom_nonlin, the re-attachment step of from_ode, the row-filling loop of from_shapes, get_sub_system and the string assembly of reconstitute_expr", "splitLinInhomNonlin_refines / splitLinInhomNonlin_lin_index, fromOdeReattach_refines, fromShapesRows_unit_rows (each lower derivative is updated by exactly the next-higher one) / fromShapesRows_top_row, subSystem_c, numericExpressions_rows / numericExpressions_value") + " End-to-end symbolic pipeline model (DESIGN.md 11.3d, no contract on expand()): splitRow_lossless, splitRow_A_const, splitRow_b_const, unitRow_den, rows_lossless, numericRhs_lossless, analyse_numeric_rhs - every right-hand side the model hands to the numeric solver denotes (as a Laurent polynomial) the right-hand side the user wrote; tied by the `pipeline` correspondence (order of x, verdict stages, values of A, b, c, sub-systems, numeric update expressions).",
+    "C03": REGEN % ("get_dependency_edges, propagate_lin_cc_judgements, the two demotion rules of _find_analytically_solvable_equations and the solver partition of _analysis", "dependencyEdges_spec / propagate_refines / verdict_refines / demote_refines / demote_eligible / findAnalytic_refines / findAnalytic_total / solverPartition_requests / solverPartition_disabled") + " Pipeline model: analyse_verdict_some, analyse_partition, analyse_analytic_closed, analyse_analytic_linear.",
+    "C04": REGEN % ("the term loop of split_lin_inhom_nonlin, the demotion rules and the worklist", "splitLinInhomNonlin_refines / demote_eligible / findAnalytic_refines / propagate_refines / verdict_refines") + " Pipeline model: collect_sound and analyse_spelling_invariant - two systems whose right-hand sides denote the same Laurent polynomials get the same x, verdict stages and partition, with expand() itself modelled (Poly.expandRaw + collect).",
     "C05": REGEN % ("the control flow of Shape.from_function (sample-time search, order-1 test, order search, both failure exits; SymPy answers as oracle)", "fromFunction_refines / fromFunction_refines_default"),
-    "C07": REGEN % ("_read_global_config", "readGlobalConfig_refines"),
-    "C08": REGEN % ("the assembly loop of generate_propagator_solver", "propagatorSolver_ok (the propagator symbols defined are exactly the non-zero entries of P, one update expression per state variable in the order of x)"),
+    "C06": REGEN % ("the row-filling loop of from_shapes and the scatter loop of _generate_propagator_matrix", "fromShapesRows_unit_rows / fromShapesRows_top_row / scatterBlocks_inside / scatterBlocks_outside / scatterBlocks_eq_scatter"),
+    "C07": REGEN % ("_read_global_config and the option handling at the start of _analysis (Config.reset() first, early return without dynamics, options block, simplify_expression argument)", "readGlobalConfig_refines / analysisPrologue_refines (the model's call under the policy 'reset first', which probe_history_independent assumes) / analysisPrologue_ignores_store"),
+    "C08": REGEN % ("the assembly loop of generate_propagator_solver and the parameter filter of _analysis", "propagatorSolver_ok (the propagator symbols defined are exactly the non-zero entries of P, one update expression per state variable in the order of x) and parameterFilter_refines / parameterFilter_none (each solver lists exactly the supplied parameters its expressions, propagators or initial values refer to)"),
     "C09": REGEN % ("Shape._parse_defining_expression and Shape.from_json (all thirteen raise sites)", "fromJson_refines (Validate.validate = regenerated from_json followed by the two name checks of Shape.__init__) and fromJson_never_ivMissing"),
     "C10": REGEN % ("get_jacobian_matrix", "jacobianMatrix_refines / jacobianMatrix_correct (every entry the regenerated loop assigns is A[i,j] + d_j c_i)"),
+    "C11": REGEN % ("SingularityDetection (_generate_singularity_conditions, _flatten_conditions, _filter_valid_conditions, find_singularities)", "preorder_negBases / generateSingularityConditions_refines / flattenConditions_refines / filterValidConditions_refines / findSingularities_refines"),
     "C12": REGEN % ("AnalyticIntegrator.get_value and the merge loops of Integrator.set_spike_times", "getValue_refines / mergeSpikes_refines / setSpikeTimes_refines"),
     "C13": REGEN % ("the main loop of MixedIntegrator.integrate_ode (outer, inner and aliased-spike loops, bound enforcement, spike application, logging)", "integrateOde_refines (simulation by MI.integrate: same time, state, spike index, logged trajectory and bound flag; assumptions: total order, np.inf sentinel, dimension-preserving stepper)"),
+    "C14": REGEN % ("StiffnessTester.check_stiffness (next to _draw_decision) and the naming of the numeric solver in _analysis", "checkStiffness_spec / recommendation_documented (explicit candidate first, implicit second, arguments of _draw_decision in the right places: off the ties the documented rule of the measured step sizes) / no_recommendation_without_benchmark / solverPartition_names"),
     "C15": REGEN % ("_generate_regular_spikes, _generate_homogeneous_poisson_spikes and spike_times_from_json", "regularSpikes_refines / poissonSpikes_refines / spikeTimesFromJson_refines"),
     "C16": " Regenerated tie: ode_analyzer.py is read as data on every run (argparse table, keyword -> parsed-argument mapping of the analysis call, normalisation of --preserve-expressions, result-name expression, order of steps and exits: Generated/CliTable.lean) and cli_keywords_pass_through / cli_arguments_as_modelled / cli_preserve_normalisation_as_modelled / cli_result_stem_as_modelled / cli_steps_as_modelled state that it is what Model/Cli.lean assumes.",
 }
-ADD_TECH = {k: "; model regenerated from the Python AST on every run with kernel-checked refinement to the hand model" for k in ADD_TEXT if k != "C02"}
-ADD_TECH["C02"] = "; symbolic end-to-end pipeline model on the Laurent-polynomial fragment with losslessness theorems and whole-pipeline correspondence"
+ADD_TECH = {k: "; model regenerated from the Python AST on every run with kernel-checked refinement to the hand model" for k in ADD_TEXT}
+ADD_TECH["C02"] += "; symbolic end-to-end pipeline model on the Laurent-polynomial fragment with losslessness theorems and whole-pipeline correspondence"
 for _k in ("C03", "C04"):
     ADD_TECH[_k] += "; symbolic end-to-end pipeline model"
 for _k, _v in ADD_TEXT.items():
